@@ -220,6 +220,8 @@ func init() {
 			c.Check(strings.HasSuffix(w.expr(fs.Store.Val), ".maxPacketMsgSize()"), funcKey(fs.Fn)+" :: _maxPacketMsgSize derived from the configured payload size", w.ipos(fs.Store), "maxPacketMsgSize()", "_maxPacketMsgSize = "+w.expr(fs.Store.Val))
 		}
 		chq := `c\.channelsIdx\[.*PacketMsg\.ChannelID\]`
+		// the channel value may come straight from the index or through a lookup helper
+		chv := `(?:` + chq + `#0|c\.\w+\(.*PacketMsg\.ChannelID\)#0)`
 		for _, call := range w.callsTo(f, "p2p/conn#Channel.recvPacketMsg") {
 			c.guards(f, call, fk+" :: reassemble packet", 0,
 				guardRe("read succeeded", `^nil\(.*\.ReadMsg\(&packet\)#1\)$`),
@@ -227,12 +229,13 @@ func init() {
 				guardRe("channel exists", `^nonnil\(`+chq+`#0\)$`),
 				guardCmp("channel id not negative", `.*PacketMsg\.ChannelID`, ">=", "0"),
 				guardCmp("channel id fits a byte", `.*PacketMsg\.ChannelID`, "<=", "255"))
-			c.Check(strings.HasPrefix(w.expr(callRecv(call)), "c.channelsIdx[") && strings.Contains(w.expr(callRecv(call)), "PacketMsg.ChannelID]#0"), fk+" :: packet goes to the channel it names", w.ipos(call), w.expr(callRecv(call)), "receiver "+w.expr(callRecv(call)))
+			rv := w.resolveResult(callRecv(call))
+			c.Check(strings.HasPrefix(rv, "c.channelsIdx[") && strings.HasSuffix(rv, "PacketMsg.ChannelID]#0"), fk+" :: packet goes to the channel it names", w.ipos(call), rv, "receiver "+rv)
 		}
 		for _, call := range w.callsMatching(f, `^dyn:c\.onReceive\(`) {
 			c.guards(f, call, fk+" :: hand message to the reactor", 0,
-				guardRe("reassembly reported no error", `^nil\(`+chq+`#0\.recvPacketMsg\(.*\)#1\)$`),
-				guardRe("a complete message was assembled", `^nonnil\(`+chq+`#0\.recvPacketMsg\(.*\)#0\)$`))
+				guardRe("reassembly reported no error", `^nil\(`+chv+`\.recvPacketMsg\(.*\)#1\)$`),
+				guardRe("a complete message was assembled", `^nonnil\(`+chv+`\.recvPacketMsg\(.*\)#0\)$`))
 			args := callArgs(call)
 			if len(args) == 2 {
 				c.Check(strings.HasSuffix(w.expr(args[0]), "PacketMsg.ChannelID") && regexp.MustCompile(`\.recvPacketMsg\(.*\)#0$`).MatchString(w.expr(args[1])), fk+" :: delivers the assembled bytes under the packet's channel id", w.ipos(call), "onReceive(chID, msgBytes)", w.callStr(call))
@@ -252,9 +255,10 @@ func init() {
 			a := w.atomStr(e.A)
 			var what string
 			switch {
-			case regexp.MustCompile(`^false\(` + chq + `#1\)$`).MatchString(a), regexp.MustCompile(`^nil\(` + chq + `#0\)$`).MatchString(a):
+			case regexp.MustCompile(`^false\(` + chq + `#1\)$`).MatchString(a), regexp.MustCompile(`^nil\(` + chq + `#0\)$`).MatchString(a),
+				regexp.MustCompile(`^false\(c\.\w+\(.*PacketMsg\.ChannelID\)#1\)$`).MatchString(a):
 				what = "unknown channel"
-			case regexp.MustCompile(`^nonnil\(` + chq + `#0\.recvPacketMsg\(.*\)#1\)$`).MatchString(a):
+			case regexp.MustCompile(`^nonnil\(` + chv + `\.recvPacketMsg\(.*\)#1\)$`).MatchString(a):
 				what = "reassembly error (capacity exceeded)"
 			case regexp.MustCompile(`^false\(&packet\.Sum\.\(\*proto/tendermint/p2p\.Packet_PacketMsg\)#1\)$`).MatchString(a):
 				what = "unknown packet type"
